@@ -133,9 +133,10 @@ build_body(void *arg) {
 
 /* ---------------- damage variants ---------------- */
 
-enum { DV_NOMETA = 0, DV_NOCURRENT, DV_TRUNC_HALF, DV_TRUNC_LAST, DV_TRUNC_ZERO, DV_GARBAGE_CURRENT, DV_DROP_TABLE0, DV_DROP_TABLE1, DV_COUNT };
+enum { DV_NOMETA = 0, DV_NOCURRENT, DV_TRUNC_HALF, DV_TRUNC_LAST, DV_TRUNC_ZERO, DV_GARBAGE_CURRENT, DV_DROP_TABLE0, DV_DROP_TABLE1, DV_REPAIR_TWICE, DV_STALE_MAN1, DV_COUNT };
 static const char *dvname[] = {"MANIFEST+CURRENT deleted", "CURRENT deleted", "MANIFEST cut in half", "MANIFEST cut 1 byte short", "MANIFEST emptied",
-                               "CURRENT holds garbage", "oldest table deleted", "newest table deleted"};
+                               "CURRENT holds garbage", "oldest table deleted", "newest table deleted",
+                               "MANIFEST+CURRENT deleted, ldb_repair run twice before the open", "MANIFEST+CURRENT deleted, a stale garbage MANIFEST-000001 left in the directory"};
 
 static int
 apply_damage(vfs_t *v, int dv) {
@@ -155,9 +156,13 @@ apply_damage(vfs_t *v, int dv) {
     }
   }
   switch (dv) {
-    case DV_NOMETA:
+    case DV_NOMETA: case DV_REPAIR_TWICE: case DV_STALE_MAN1:
       snprintf(p, sizeof(p), "%s/%s", DB, man); vfs_remove(v, p);
       snprintf(p, sizeof(p), "%s/CURRENT", DB); vfs_remove(v, p);
+      if (dv == DV_STALE_MAN1) {
+        snprintf(p, sizeof(p), "%s/MANIFEST-000001", DB);
+        vfs_put_file(v, p, "this is not a descriptor, it is 44 bytes long", 44);
+      }
       return 1;
     case DV_NOCURRENT:
       snprintf(p, sizeof(p), "%s/CURRENT", DB); vfs_remove(v, p);
@@ -188,6 +193,8 @@ apply_damage(vfs_t *v, int dv) {
   }
   return 0;
 }
+
+static int cur_dv;
 
 /* ---------------- the check ---------------- */
 
@@ -222,6 +229,10 @@ repair_body(void *arg) {
   pre_names = vfs_jlen(vfs_cur);
   rc = ldb_repair(DB, &h.o.opt);
   n_repairs++;
+  if (rc == LDB_OK && cur_dv == DV_REPAIR_TWICE) {
+    rc = ldb_repair(DB, &h.o.opt);
+    n_repairs++;
+  }
   if (rc != LDB_OK) {
     snprintf(m, sizeof(m), "ldb_repair returned %d (%s)", rc, ldb_strerror(rc));
     jfail(j, "repair-failed", m);
@@ -329,10 +340,14 @@ repair_body(void *arg) {
         if (e->kind != J_CREATE && e->kind != J_REPLACE) continue;
         if (strstr(e->path, "LOCK") || strstr(e->path, ".dbtmp") || strstr(e->path, "/lost")) continue;
         if (e->kind == J_REPLACE && v->inodes[e->ino2]->len > 0) {
+          if (getenv("VH_DEBUG_JOURNAL")) vfs_dump_journal(v, stderr, pre_names, v->njournal);
           snprintf(m, sizeof(m), "after repair the existing file %s was overwritten (file number reused)", e->path);
           jfail(j, "repair-file-number-reused", m);
         }
-        for (b = 0; b < v->nbase && j->ok; b++)
+        /* a name that existed when repair started and is created again.  Not judged for the descriptor
+         * (repair always installs MANIFEST-000001 after archiving the old ones) nor when repair ran twice
+         * (what the first run moved to lost/ is no longer in the directory the second run numbers from) */
+        for (b = 0; b < v->nbase && j->ok && cur_dv != DV_REPAIR_TWICE && !strstr(e->path, "MANIFEST-"); b++)
           if (strcmp(v->base[b].path, e->path) == 0 && e->kind == J_CREATE) {
             snprintf(m, sizeof(m), "after repair a new file reuses the existing name %s", e->path);
             jfail(j, "repair-file-number-reused", m);
@@ -385,6 +400,7 @@ explore_state(const hist_t *h, int only_dv) {
     if (only_dv < 0 && !drv_mine(case_counter++)) continue;
     w = vfs_clone(tmpl);
     if (!apply_damage(w, dv)) { vfs_free(w); continue; }
+    cur_dv = dv;
     vfs_base_snapshot(w);
     memset(&j, 0, sizeof(j));
     {
@@ -497,7 +513,7 @@ main(int argc, char **argv) {
   copy = strdup(cfgs);
   for (item = strtok_r(copy, ";", &save); item && !stop_now; item = strtok_r(NULL, ";", &save)) {
     if (!kcfg_parse(&cfg, item)) vh_die("bad cfg");
-    drv_note("cfg %s: every history of length <= %d over %d ops from the empty database and of length <= %d from each of 8 scripted layouts x 8 damage variants", item, len, nalpha, sdepth);
+    drv_note("cfg %s: every history of length <= %d over %d ops from the empty database and of length <= %d from each of 8 scripted layouts x 10 damage variants", item, len, nalpha, sdepth);
     enumerate(len, sdepth);
   }
   free(copy);
